@@ -1,20 +1,25 @@
 import Solvor.Common.Proto
 import Solvor.Cut.Model
+import Solvor.Cut.Mirror
 /-! Cut: line-protocol handler.
 
-request `["case", mode, W, sizes, demands, cols, plan, obj, duals]`
+request `["case", mode, W, sizes, demands, cols, plan, obj, duals, fn, maxIter, init]`
   mode    : "cs" (cutting stock: admissible = fits in width `W` with piece `sizes`) or
             "cols" (custom: admissible = member of the explicit column list `cols`)
   plan    : `null` or the implementation's plan `[[pattern, count], ...]`
   obj     : `null` or the implementation's objective as an exact rational `[num, den]`
   duals   : `null` or the dual vector the implementation priced last, exact rationals
-reply `[opt, planOk, [feasOk, coversOk, objOk], rolls, [dualFeas, dualBound]]`
+  fn      : "solve_cg" (the mirror is run as well) or anything else (no mirror)
+  maxIter : `max_iter` of the call; init : initial columns (custom mode)
+reply `[opt, planOk, [feasOk, coversOk, objOk], rolls, [dualFeas, dualBound], mirror]`
   opt      : exact optimum (`minRolls`, proved minimal) or `null` (demands cannot be covered)
   planOk   : verified checker `checkPlan` on the implementation's plan and objective
   feasOk.. : the three conjuncts of the checker, for the failure class only
   rolls    : `rolls plan`
   dualFeas : verified `dualFeasible` on the duals after clamping negatives to 0 and scaling by
              `max 1 (max_p y·p)`; dualBound : `⌈y·d⌉` of that vector (≤ optimum by `dual_bound`)
+  mirror   : `null` or `[status, plan, iterations, planOk, dualFeas, dualBound]` of the `solve_cg`
+             mirror: its returned value (R_trace) and the verified checkers on its own output
 -/
 namespace Solvor.Cut
 open Solvor.Proto
@@ -28,10 +33,12 @@ def parsePlan (v : Val) : Option Plan := do
 
 def handle (line : String) : String :=
   match request line with
-  | some ("case", [mode, w, sizes, dem, cols, plan, obj, duals]) =>
+  | some ("case", [mode, w, sizes, dem, cols, plan, obj, duals, fn, mi, init]) =>
     match mode.toStr?, w.toNat?, sizes.toNats?, dem.toNats?, cols.toNatss?,
-          Val.toOpt? parsePlan plan, Val.toOpt? Val.toRat? obj, Val.toOpt? Val.toRats? duals with
-    | some mode, some w, some sizes, some dem, some cols, some plan, some obj, some duals =>
+          Val.toOpt? parsePlan plan, Val.toOpt? Val.toRat? obj, Val.toOpt? Val.toRats? duals,
+          fn.toStr?, mi.toNat?, init.toNatss? with
+    | some mode, some w, some sizes, some dem, some cols, some plan, some obj, some duals,
+      some fn, some mi, some init =>
       let cs := mode == "cs"
       let feasB : Pat → Bool := if cs then fitsB w sizes else inColsB cols
       let opt : Option Nat := if cs then csOpt w sizes dem else minRolls cols dem dem.sum
@@ -45,17 +52,29 @@ def handle (line : String) : String :=
           let o := match objN with | some n => n == rolls pl | none => false
           ((match objN with | some n => checkPlan feasB dem pl n | none => false), [f, c, o], rolls pl)
         | none => (false, [], 0)
+      let certify (y : List Rat) : Bool × Int :=
+        let y0 := y.map fun q => if q < 0 then 0 else q
+        let m : Rat := if cs then knapMax w sizes y0 else cols.foldl (fun a p => maxQ a (dotQ y0 p)) 0
+        let y1 := scaleDual m y0
+        (if cs then dualFeasible w sizes y1 else dualFeasibleCols cols y1, dualBound y1 dem)
       let dual : Val := match duals with
-        | some y =>
-          let y0 := y.map fun q => if q < 0 then 0 else q
-          let m : Rat := if cs then knapMax w sizes y0 else cols.foldl (fun a p => maxQ a (dotQ y0 p)) 0
-          let y1 := scaleDual m y0
-          let f := if cs then dualFeasible w sizes y1 else dualFeasibleCols cols y1
-          Val.arr [Val.bool f, Val.int (dualBound y1 dem)]
+        | some y => let (f, b) := certify y; Val.arr [Val.bool f, Val.int b]
         | none => Val.null
+      let mirror : Val :=
+        if fn == "solve_cg" then
+          let eps := Solvor.Gen.Cut.cgEps
+          let o : Mirror.CgOut :=
+            if dem.all (· == 0) then ⟨"OPTIMAL", [], 0, 0, List.replicate dem.length 0, some 0⟩
+            else if cs then Mirror.cgCuttingStock w sizes dem mi eps
+            else Mirror.cgCustom cols init dem mi eps
+          let (f, b) := certify o.duals
+          Val.arr [Val.str o.status,
+            Val.arr (o.plan.map fun pc => Val.arr [Val.ofNats pc.1, Val.int pc.2]),
+            Val.int o.iters, Val.bool (checkPlan feasB dem o.plan o.total), Val.bool f, Val.int b]
+        else Val.null
       (Val.arr [Val.ofOpt (fun (n : Nat) => Val.int n) opt, Val.bool ok,
-        Val.arr (parts.map Val.bool), Val.int r, dual]).render
-    | _, _, _, _, _, _, _, _ => err "bad arguments"
+        Val.arr (parts.map Val.bool), Val.int r, dual, mirror]).render
+    | _, _, _, _, _, _, _, _, _, _, _ => err "bad arguments"
   | _ => err "bad request"
 
 end Solvor.Cut
